@@ -764,26 +764,6 @@ NETS = [
 THOROUGH_ACCS = compiles.U55 + compiles.U65
 
 
-def net_jobs(tier):
-    d = os.path.join(vlib.BUILD, "c16nets")
-    os.makedirs(d, exist_ok=True)
-    jobs = []
-    for i, (name, builder, opcode, what) in enumerate(NETS):
-        data = builder(random.Random("c16/" + name)).build()
-        sha = hashlib.sha256(data).hexdigest()[:16]
-        path = os.path.join(d, "%s-%s.tflite" % (name, sha))
-        if not os.path.exists(path):
-            with open(path + ".tmp", "wb") as f:
-                f.write(data)
-            os.replace(path + ".tmp", path)
-        rot = ["ethos-u55-128", "ethos-u65-256", "ethos-u55-32", "ethos-u65-512", "ethos-u55-256", "ethos-u55-64"]
-        accs = THOROUGH_ACCS if tier == "thorough" else [rot[i % 6]] + ([rot[(i + 1) % 6]] if i % 2 == 0 else [])
-        for acc in accs:
-            jobs.append({"tflite": path, "sha": sha, "args": ["--accelerator-config", acc], "capture": False,
-                         "family": "c16:" + name, "seed": "c16"})
-    return jobs
-
-
 # ------------------------------------------------------------------------------------------------------------------
 # evaluation of "all listed constraints hold" on the source operator
 def eval_listed_real(path, opcode):
@@ -966,7 +946,10 @@ def doc_oracle(sentence, f, summary):
 
 def analyse(result, name, opcode):
     """one compiled boundary network -> dict(verdict fields) ; never raises for a well-formed result"""
-    import c11
+    try:
+        from checks import c11
+    except ImportError:
+        import c11
     path = result["job"]["tflite"]
     src = tflsum.summarise(path)
     s0 = src["subgraphs"][0]
@@ -1044,3 +1027,197 @@ def analyse(result, name, opcode):
     else:
         info["placement"] = "removed"
     return info
+
+
+def random_nets(rng, n):
+    """thorough tier: random values around the documented bounds"""
+    out = []
+    for i in range(n):
+        kind = rng.choice(["conv_stride", "conv_kernel", "maxpool", "avgpool", "mean", "resize", "dw", "add", "tconv"])
+        if kind == "conv_stride":
+            sh, sw, iw = rng.choice([1, 2, 3, 4]), rng.choice([1, 2, 3, 4, 5, 6, 8, 9]), rng.choice([8, 9, 10, 12, 15, 16, 18])
+            out.append(("rnd%d_conv_s%dx%d_w%d" % (i, sh, sw, iw), n_conv(stride=(sh, sw), ish=(1, rng.choice([4, 12]), iw, 4), padding=rng.choice(["SAME", "VALID"])), "CONV_2D", "random stride"))
+        elif kind == "conv_kernel":
+            kh, kw, d = rng.choice([1, 3, 32, 63, 64, 65]), rng.choice([1, 2, 63, 64, 65]), rng.choice([1, 1, 2])
+            out.append(("rnd%d_conv_k%dx%d_d%d" % (i, kh, kw, d), n_conv(k=(kh, kw), d=(d, 1), ish=(1, 140, 70, 1), oc=1), "CONV_2D", "random kernel"))
+        elif kind in ("maxpool", "avgpool"):
+            kh, kw = rng.choice([1, 2, 8, 9, 255, 256, 257]), rng.choice([1, 2, 8, 9, 256, 257])
+            s = (rng.choice([1, 2, 3, 4]), rng.choice([1, 2, 3, 4]))
+            pd = rng.choice(["SAME", "VALID"])
+            out.append(("rnd%d_%s_k%dx%d_s%dx%d_%s" % (i, kind, kh, kw, s[0], s[1], pd),
+                        n_pool(MX if kind == "maxpool" else AV, (kh, kw), s, pd, ish=(1, 260, 260, 1)), MX if kind == "maxpool" else AV, "random pool"))
+        elif kind == "mean":
+            shape = (1, rng.choice([1, 4, 255, 256, 257]), rng.choice([4, 256, 257, 4096, 4097]), rng.choice([1, 2, 8]))
+            axes = rng.choice([(1, 2), (1,), (2,)])
+            dt = rng.choice(["int8", "uint8", "int16"])
+            out.append(("rnd%d_mean_%s_%s_%s" % (i, "x".join(map(str, shape)), "".join(map(str, axes)), dt), n_mean(shape, axes, dt), "MEAN", "random mean"))
+        elif kind == "resize":
+            ih, iw, f = rng.choice([1, 2, 4, 5]), rng.choice([2, 3, 4]), rng.choice([2, 3, 4, 8, 16])
+            al, hp = rng.random() < 0.3, rng.random() < 0.3
+            osh = (1, (ih - 1) * f + 1, (iw - 1) * f + 1, 1) if al else (1, ih * f, iw * f, 1)   # 1 channel: see resize_nn_align_4_7
+            k = rng.choice([RB, RN])
+            out.append(("rnd%d_%s_%dx%d_x%d_a%d_h%d" % (i, k[7:10], ih, iw, f, al, hp), n_resize(k, (1, ih, iw, 1), osh, al, hp), k, "random resize"))
+        elif kind == "dw":
+            s, m, c = (rng.choice([1, 3, 4]), rng.choice([1, 3, 4])), rng.choice([1, 2, 3]), rng.choice([1, 2])
+            out.append(("rnd%d_dw_s%dx%d_m%d_c%d" % (i, s[0], s[1], m, c), n_dw(s=s, mult=m, ish=(1, 12, 12, c)), "DEPTHWISE_CONV_2D", "random depthwise"))
+        elif kind == "add":
+            s1 = [rng.choice([1, 2]), rng.choice([1, 8]), rng.choice([1, 8, 65535, 65536]), rng.choice([1, 4])]
+            s2 = [s1[0]] + [rng.choice([1, d]) for d in s1[1:]]
+            out.append(("rnd%d_add_%s_%s" % (i, "x".join(map(str, s1)), "x".join(map(str, s2))), n_ew(rng.choice(["ADD", "MUL", "SUB"]), s1, s2), None, "random elementwise"))
+        else:
+            s = rng.choice([(1, 1), (2, 2), (1, 2), (2, 1), (3, 3)])
+            k = rng.choice([(1, 1), (2, 2), (3, 3), (1, 3)])
+            pd = rng.choice(["SAME", "VALID"])
+            out.append(("rnd%d_tconv_s%dx%d_k%dx%d_%s" % (i, s[0], s[1], k[0], k[1], pd), n_tconv(s, k, pd, ish=(1, rng.choice([1, 4]), 6, 4)), "TRANSPOSE_CONV", "random tconv"))
+    return out
+
+
+def classify(a):
+    """violation (key, what) of one analysed compilation, or None.  The documented reading of a sentence decides where one
+    exists, the constraint function's own answer elsewhere (doc_all)."""
+    net = a["net"]
+    if a.get("error"):
+        return None
+    if a["placement"] == "none":
+        con = (a["failing_doc"] or [x[0] for x in a["raising"]] or [None])[0]
+        return ({"kind": "crash", "net": net, "crash": (a.get("crash") or "")[:120], "constraint": con},
+                "compiler crashed (%s) on an operator %s: %s" % (a.get("crash"), "for which every listed constraint holds" if a["doc_all"]
+                                                                 else "that violates listed constraint(s) %s and had to stay on the CPU" % (a["failing_doc"] or a["raising"]), net))
+    if a["placement"] == "removed":
+        return ({"kind": "removed", "net": net}, "operator is neither in an ethos-u operator nor on the CPU in the output (%s)" % net)
+    if a["placement"] == "npu" and not a["doc_all"]:
+        fr = a["failing_real"]
+        con = (fr or a["failing_doc"] or [None])[0]
+        cause = "enforced_constraint_not_respected" if fr else "documented_sentence_stricter_than_code"
+        return ({"kind": "npu_although_listed_constraint_fails", "net": net, "constraint": con, "cause": cause},
+                "%s placed on the NPU although listed constraint %s fails (%s; net %s)" % (a["opcode"], con, cause, net))
+    if a["placement"] == "cpu" and a["doc_all"] and a["in_report"]:
+        fr = a["failing_real"]
+        con = (fr or [None])[0]
+        cause = "code_stricter_than_documented_sentence" if fr else "placement_after_the_checks"
+        return ({"kind": "cpu_although_all_listed_constraints_hold", "net": net, "constraint": con, "cause": cause},
+                "%s stays on the CPU although every constraint the report lists for it holds (%s%s; net %s)" % (
+                    a["opcode"], cause, " %s" % con if con else "", net))
+    if a["placement"] == "cpu" and a.get("cpu_changed"):
+        return ({"kind": "cpu_operator_changed", "net": net}, "CPU-resident %s was modified: %s (net %s)" % (a["opcode"], a["cpu_changed"], net))
+    return None
+
+
+def run(tier):
+    res = vlib.Result("C16", tier, "other")
+    b = vlib.build_property("C16")
+    vlib.proof_coverage(res, b, [
+        "tools/constraints2gallina.py: dedicated Python-ast -> Gallina translator for the constraint methods (accessor table, "
+        "statement table, intrinsics prelude; see its docstring) and the introspection/tracing of the live classes",
+        "the documented readings in coq/model/Constraints.v (each tied to the report's sentence by documented_sentences)",
+        "extraction (ExtrOcamlBasic only) + ocaml/driver.ml for the correspondence run",
+        "placement: tools/tflsum.py, tools/netgen.py, Vela's reader for evaluating the listed constraints on the source operator"])
+    okx, xlog = vlib.build_extraction("constraints")
+    rng = random.Random(vlib.seed())
+    new_violation = [False]
+
+    def viol(key, detail, what, no_input=False):
+        if res.violation(key, detail, what, no_input=no_input):
+            new_violation[0] = True
+
+    # (a) correspondence
+    model_diffs, doc_diffs, cstats = run_correspondence(res, tier, rng, okx)
+    # (b) report
+    rproblems, rrows = check_report()
+    for p in rproblems:
+        key = {"kind": "report_lists_not_enforced_set", "operator": p.get("operator", "*")}
+        viol(key, p, "generated report does not list exactly the enforced constraints for %s: not listed %r, listed but not enforced %r" % (
+            p.get("operator", "the operator table"), p.get("enforced_but_not_listed", p.get("missing")), p.get("listed_but_not_enforced", p.get("extra"))))
+    for name, d in doc_diffs.items():
+        viol({"kind": "documented_vs_enforced", "constraint": name},
+             dict(d, replay="TFLiteSupportedOperators.%s on an operator with these parameters" % name),
+             "the sentence the report prints for %s and the predicate the compiler enforces differ: parameters %s -> documented %s, enforced %s" % (
+                 name, json.dumps(d["params"])[:160], d["documented"], d["real"]))
+    # (c) placement
+    nets = list(NETS)
+    if tier == "thorough":
+        nets += random_nets(random.Random("c16rnd/%d" % vlib.seed()), 150)
+    jobs = []
+    d = os.path.join(vlib.BUILD, "c16nets")
+    os.makedirs(d, exist_ok=True)
+    rot = ["ethos-u55-128", "ethos-u65-256", "ethos-u55-32", "ethos-u65-512", "ethos-u55-256", "ethos-u55-64"]
+    meta = {}
+    for i, (name, builder, opcode, what) in enumerate(nets):
+        net = builder(random.Random("c16/" + name))
+        data = net.build()
+        if opcode is None:
+            opcode = net.ops[0]["kind"]
+        sha = hashlib.sha256(data).hexdigest()[:16]
+        path = os.path.join(d, "%s-%s.tflite" % (name, sha))
+        if not os.path.exists(path):
+            with open(path + ".tmp%d" % os.getpid(), "wb") as f:
+                f.write(data)
+            os.replace(path + ".tmp%d" % os.getpid(), path)
+        meta[name] = (opcode, what)
+        if tier == "thorough":
+            accs = THOROUGH_ACCS if i < len(NETS) else [rot[i % 6], rot[(i + 3) % 6]]
+        else:
+            accs = [rot[i % 6]] + ([rot[(i + 1) % 6]] if i % 2 == 0 else [])
+        for acc in accs:
+            jobs.append({"tflite": path, "sha": sha, "args": ["--accelerator-config", acc], "capture": False, "family": "c16:" + name, "seed": "c16"})
+    results = compiles.run_all(jobs, timeout=900)
+    placed = collections.Counter()
+    inside = outside = 0
+    samples = []
+    analysed = 0
+    per_constraint = collections.Counter()
+    for r in results:
+        name = r["job"]["family"][4:]
+        opcode, what = meta[name]
+        if r["status"] == "timeout":
+            placed["timeout"] += 1
+            continue
+        try:
+            a = analyse(r, name, opcode)
+        except Exception as ex:
+            if len(res.notes) < 5:
+                res.notes.append("analysis of %s failed: %r" % (name, ex))
+            continue
+        analysed += 1
+        placed[a["placement"]] += 1
+        if a.get("doc_all"):
+            inside += 1
+        else:
+            outside += 1
+            for c in set(a.get("failing_doc", []) + a.get("failing_real", [])):
+                per_constraint[c] += 1
+        if len(samples) < 4 and a["placement"] in ("npu", "cpu") and name in ("conv_stride_h3", "conv_stride_h4", "maxpool_kh257", "mean_c4096"):
+            samples.append({k: a[k] for k in ("net", "accelerator", "placement", "real_all", "doc_all", "failing_real", "failing_doc")})
+        v = classify(a)
+        if v:
+            key, whatv = v
+            viol(key, {"analysis": a, "probe": what, "network": r["job"]["tflite"], "args": r["job"]["args"],
+                       "replay_cmd": "cd /verif && PYTHONPATH=%s /venv/bin/python -m ethosu.vela %s --output-dir /verif/build/c16replay %s" % (
+                           vlib.REPO, r["job"]["tflite"], " ".join(r["job"]["args"]))}, "C16: " + whatv)
+    res.cov.update({
+        "programs": analysed, "placement": dict(placed), "networks": len(nets), "compilations": len(jobs),
+        "networks_all_listed_hold": inside, "networks_some_listed_fails": outside, "failing_constraint_histogram": dict(per_constraint),
+        "correspondence": cstats, "model_vs_real_differences": len(model_diffs),
+        "documented_vs_enforced_differences": sorted(doc_diffs), "report_rows_checked": rrows, "report_problems": len(rproblems),
+        "generated_vs_checked_in_report": report_vs_checked_in()[:12],
+        "evaluations": cstats["cases"] + analysed + rrows, "distinct_nontrivial": cstats["distinct"] + len(nets),
+        "rule": "correspondence: distinct (constraint, real answer, parameters) triples evaluated on real Operation objects by the real "
+                "constraint methods and by the extracted translated predicates; placement: distinct boundary networks, each compiled "
+                "for 1-2 (thorough: 6) accelerators, judged by the documented reading of every listed sentence (real constraint "
+                "function where no numeric reading exists) against the operator's presence in the output model",
+        "samples": samples or [{"note": "none"}],
+        "disagreements_checked": len(model_diffs) + len(doc_diffs),
+    })
+    res.assumptions += ["sampled boundary networks and accelerators", "documented readings of the report's sentences as fixed in coq/model/Constraints.v "
+                        "and tools/checks/c16.py doc_oracle (the reading most favourable to the code where a sentence is ambiguous)",
+                        "strides and dilations are positive (Kernel asserts it) in the correspondence domain"]
+    if not b["ok"] and not new_violation[0]:
+        vlib.report_broken_build(res, b, None)
+    if (model_diffs or not okx) and not new_violation[0]:
+        md = model_diffs[0] if model_diffs else {}
+        viol({"correspondence": md.get("constraint", "extraction"), "kind": "model_vs_real"},
+             {"first": md, "count": len(model_diffs), "extraction_ok": okx, "log": "" if okx else xlog[-1500:]},
+             "translated predicate and real constraint method disagree (%s)" % (md.get("constraint", "extraction failed")), no_input=True)
+    if analysed == 0:
+        viol({"machinery": "no boundary network analysed"}, {"placed": dict(placed)}, "no boundary compilation could be analysed", no_input=True)
+    return res.finish()
